@@ -42,6 +42,8 @@ HAS_ORIGIN = set(DAG_CLASSES + CYC_CLASSES + OTHER_CLASSES)
 IS_CYC = set(CYC_CLASSES) | {"stDiGraph"}
 NEEDS_DAG = set(DAG_CLASSES) | {"stDAG"}
 # additional starts/ends: which classes take them at all (edge mode)
+HAS_SUPERSET = {"kFlowDecomp", "kLeastAbsErrors", "kMinPathError"}
+K_NONE_ALLOWED = {"kMinPathError", "kMinPathErrorCycles", "kLeastAbsErrorsCycles"}      # documented: k=None means the width
 HAS_STARTS = {"stDAG", "stDiGraph", "NodeExpandedDiGraph", "MinFlowDecomp", "kMinPathError", "kLeastAbsErrors", "kPathCover",
               "MinPathCover", "kFlowDecompCycles", "MinFlowDecompCycles", "kMinPathErrorCycles", "kLeastAbsErrorsCycles",
               "kPathCoverCycles", "MinPathCoverCycles", "MinErrorFlow"}
@@ -117,7 +119,13 @@ def gen_valid(rng, cls):
             "edges": [(u, v, ew[(u, v)]) for (u, v) in G.edges()],
             "node_w": {v: nw[v] for v in nodes} if origin == "node" else {},
             "k": None, "cons": [], "cov": 1.0, "cov_len": None, "len_attr": False, "ign": [], "starts": [], "ends": [],
-            "ign_pct": None, "trust_pct": None}
+            "ign_pct": None, "trust_pct": None, "superset": None, "opts": {}}
+    spec["route_weights"] = list(wts)
+    # the given-weights argument (one entry per route, so that an exact decomposition with them exists) and a solver-side option
+    if cls in HAS_SUPERSET and rng.random() < 0.3:
+        spec["superset"] = sorted(wts) + ([rng.randint(1, 6)] if rng.random() < 0.3 else [])
+    if cls in ("kFlowDecomp", "MinFlowDecomp") and rng.random() < 0.3:
+        spec["opts"] = {"optimize_with_greedy": False}
     if cls in HAS_K:
         spec["k"] = len(routes) + rng.choice([0, 0, 1])
     # constraints from actual routes
@@ -411,8 +419,41 @@ def v_covlen_and_cov(spec, rng):
 
 def v_k0(spec, rng):     spec["k"] = 0; return True
 def v_kneg(spec, rng):   spec["k"] = -2; return True
-def v_kfloat(spec, rng): spec["k"] = float(spec["k"]) + 0.5; return True
-def v_kfloatint(spec, rng): spec["k"] = float(spec["k"]); return True
+def _knum(spec): return isinstance(spec["k"], (int, float)) and not isinstance(spec["k"], bool)
+def v_kfloat(spec, rng):
+    if not _knum(spec): return False
+    spec["k"] = float(spec["k"]) + 0.5; return True
+def v_kfloatint(spec, rng):
+    if not _knum(spec): return False
+    spec["k"] = float(spec["k"]); return True
+def v_kbool(spec, rng): spec["k"] = rng.random() < 0.7; return True
+def _sup(spec, rng):
+    """the related optional arguments get VALID values: given weights (and, at random, greedy off / constraints as they are)"""
+    if spec["cls"] not in HAS_SUPERSET:
+        return False
+    spec["superset"] = sorted(spec["route_weights"]) + ([rng.randint(1, 6)] if rng.random() < 0.3 else [])
+    if spec["cls"] == "kFlowDecomp" and rng.random() < 0.5:
+        spec["opts"] = {"optimize_with_greedy": False}
+    return True
+def v_k0_sup(spec, rng): spec["k"] = 0; return _sup(spec, rng)
+def v_kneg_sup(spec, rng): spec["k"] = -2; return _sup(spec, rng)
+def v_kfloat_sup(spec, rng):
+    if not _knum(spec): return False
+    spec["k"] = float(spec["k"]) + rng.choice([0.5, 0.0]); return _sup(spec, rng)
+def v_kbool_sup(spec, rng): spec["k"] = rng.random() < 0.7; return _sup(spec, rng)
+def v_k0_greedy_off(spec, rng):
+    if spec["cls"] != "kFlowDecomp": return False
+    spec["k"] = rng.choice([0, -1]); spec["opts"] = {"optimize_with_greedy": False}; return True
+# kinds of k outside the abstract model (evaluated against the property only): None where it is not documented, a string
+def v_knone(spec, rng):
+    if spec["cls"] in K_NONE_ALLOWED: return False
+    spec["k"] = None; spec["k_is_none"] = True
+    if rng.random() < 0.4: _sup(spec, rng)
+    return True
+def v_kstr(spec, rng):
+    spec["k"] = "2"
+    if rng.random() < 0.4: _sup(spec, rng)
+    return True
 def v_wtype(spec, rng):  spec["wtype"] = "str"; return True
 def v_origin(spec, rng): spec["origin"] = "vertex"; return True
 def v_start(spec, rng):  spec["starts"] = spec["starts"] + ["zz_unknown"]; return True
@@ -430,7 +471,8 @@ VIOL = {"missing_with_ignpct": v_missing_with_ignpct, "missing_with_trustpct": v
         "nonstr": v_nonstr, "cycle": v_cycle, "nosource": v_nosource, "nosink": v_nosink, "neg": v_neg,
         "missing": v_missing, "noncons": v_noncons, "cons_absent": v_cons_absent, "cons_tuple": v_cons_tuple,
         "cons_empty": v_cons_empty, "cons_item3": v_cons_item3, "cons_itemint": v_cons_itemint, "cons_edgelist_int": v_cons_edgelist_int,
-        "cov0": v_cov0, "covneg": v_covneg, "covbig": v_covbig, "k0": v_k0, "kneg": v_kneg, "kfloat": v_kfloat,
+        "cov0": v_cov0, "covneg": v_covneg, "covbig": v_covbig, "k0": v_k0, "kneg": v_kneg, "kfloat": v_kfloat, "kbool": v_kbool, "k0_sup": v_k0_sup, "kneg_sup": v_kneg_sup,
+        "kfloat_sup": v_kfloat_sup, "kbool_sup": v_kbool_sup, "k0_greedy_off": v_k0_greedy_off, "knone": v_knone, "kstr": v_kstr,
         "kfloatint": v_kfloatint, "wtype": v_wtype, "origin": v_origin, "start": v_start, "end": v_end,
         "ign_malformed": v_ign_malformed, "ign_absent_node": v_ign_absent_node}
 
@@ -447,7 +489,9 @@ def violations_for(cls):
     if cls in HAS_CONS: vs += ["cons_absent", "cons_tuple", "cons_empty", "cons_item3", "cons_itemint", "cons_edgelist_int", "cov0", "covneg", "covbig"]
     if cls in DAG_CLASSES: vs += ["cov0_with_len", "covneg_with_len", "covbig_with_len", "covlen0", "covlen_big", "covlen_no_attr", "covlen_and_cov",
                                   "covlen0_nocons", "covlen_big_nocons"]
-    if cls in HAS_K: vs += ["k0", "kneg", "kfloat", "kfloatint"]
+    if cls in HAS_K: vs += ["k0", "kneg", "kfloat", "kfloatint", "kbool", "knone", "kstr"]
+    if cls in HAS_SUPERSET: vs += ["k0_sup", "kneg_sup", "kfloat_sup", "kbool_sup"]
+    if cls == "kFlowDecomp": vs.append("k0_greedy_off")
     if cls in HAS_WTYPE: vs.append("wtype")
     if cls in HAS_ORIGIN: vs += ["origin", "ign_malformed", "ign_absent_node"]
     if cls in HAS_STARTS: vs += ["start", "end"]
@@ -517,6 +561,10 @@ def construct(spec, G=None):
         kw["flow_attr"] = "flow"; kw["flow_attr_origin"] = spec["origin"]; kw["weight_type"] = _wtype(spec)
     if cls in HAS_K:
         kw["k"] = spec["k"]
+    if cls in HAS_SUPERSET and spec.get("superset") is not None:
+        kw["solution_weights_superset"] = list(spec["superset"])
+    if spec.get("opts") and cls in ("kFlowDecomp", "MinFlowDecomp"):
+        kw["optimization_options"] = dict(spec["opts"])
     if cls in HAS_CONS:
         if cls in IS_CYC:
             kw["subset_constraints"] = cons; kw["subset_constraints_coverage"] = spec["cov"]
